@@ -329,8 +329,38 @@ def run(ck):
             ck.ob("C06-R3", "asyncWriteImpl/%s-starts-at-totalWritten" % w["callee"].replace(T, ""), ok, w.loc, lf, "arguments: %s (inside a local lambda)" % args)
     ck.require(nw >= 2, "writer calls of the drain routine: %d found" % nw)
 
+    # ---------------- R7: one transmitting call per invocation, its result returned ----------------
+    ck.rule("C06-R7", "C loop-freedom + all-returns",
+            "Transport::sendRawBuffer and Transport::sendFile issue at most one transmitting call (send / sendfile / SSL_write / "
+            "SSL_sendfile) per invocation and return its result: asyncWriteImpl keeps the offset, so bytes a call has put on the wire "
+            "must be reported before anything else can fail -- a helper that loops and then returns the -1 of a later would-block makes "
+            "the caller re-queue and send those bytes a second time", 2)
+    TXC = ("send", "sendfile", "SSL_write", "SSL_sendfile", "sendmsg", "sendto", "writev", "write")
+    for nm in ("sendRawBuffer", "sendFile"):
+        f7 = lib.single(prog, T + nm)
+        tx7 = [e for e in f7.calls(lambda e: (e.get("callee") or "") in TXC)]
+        ck.require(tx7, "no transmitting call found in Transport::%s" % nm)
+        loops7 = cfg.natural_loops(f7)
+        inloop = [e for e in tx7 if cfg.innermost_loop(f7, e.block, loops7) is not None]
+        # more than one on a path
+        def cnt(st, ev):
+            return min(st + 1, 2) if any(ev is x for x in tx7) else st
+        ex7, _ = cfg.run_automaton(f7, 0, cnt)
+        many = [x for x in ex7 if x.kind != "throw" and x.state > 1]
+        ck.ob("C06-R7", "%s/one-transmitting-call" % nm, not inloop and not many, (inloop or tx7)[0].loc, f7,
+              "one %s per invocation" % "/".join(sorted({e["callee"] for e in tx7})) if not inloop and not many else
+              "%s is called %s: progress made before a later call fails or would block is not reported to the caller, which re-sends it"
+              % (tx7[0]["callee"], "in a loop" if inloop else "more than once on a path"))
+
     # ---------------- facts shared with C13 ----------------
     ck.borrow("C13", ["C13-R1", "C13-R2"], "C06-R5",
               "writes queued from other threads travel through a PollableQueue: push links the entry with one atomic exchange and then "
               "signals the eventfd unconditionally; pop drains the eventfd before it looks at the queue -- otherwise a queued write can "
               "stay behind with its wake-up consumed and never reach the peer", min_instances=3)
+
+    # ---------------- facts shared with C08 ----------------
+    ck.borrow("C08", ["C08-R2"], "C06-R6",
+              "what is still queued for a connection is dropped when the connection is released (removePeer erases toWrite[fd], for the same "
+              "descriptor it closes): otherwise the next connection that is given the descriptor number is sent the old bytes first and the old "
+              "promises are settled for the wrong peer",
+              key_pred=lambda k: k in ("removePeer/toWrite.erase-once", "removePeer/same-descriptor"), min_instances=2)
